@@ -40,7 +40,7 @@ CHECKS = {
    text="Four loaders x every limit 0..size+2 (quick: seeded third) x concurrency x release policy on forked logs with skip references; count = min(max(n,k),size), supplied entries kept, nothing strictly more recent omitted, equal result sets for two runs differing only in schedule (when clocks are distinct), the caller's limit variable untouched; a quarter of the logs under the link-encrypting codec.",
    note="Membership uses the strict part of (time, clock id) so ties cannot false-alarm."),
  "C11": dict(cat="fault_enumeration", ref="§3 C11", tech="fault injection at the block-store boundary + offline checker over the recorded Get event log + state-based hang detector, child processes",
-   text="Every fault kind (absent, removed, I/O error, undecodable, non-entry block, hang until timeout) at every structural position class (all heads, one head, cut vertex, everything, independent subsets) x exclusion sets x concurrency x completion orders; the event log is checked for double / excluded requests and for the deadline of every request's context (a configured timeout bounds every request, also under a caller deadline), the result against the model's reachability closure, termination by quiescence; through FetchAll and through the manifest loader, default and link-encrypting codec (incl. sealed links with a wrong-length nonce), the entry-hash loader, every spelling of "no limit" (-1, -2, -100), a legacy-codec chain with a block that never arrives under a fetch timeout; a fifth of the quick cases again under the race detector.",
+   text="Every fault kind (absent, removed, I/O error, undecodable, non-entry block, hang until timeout) at every structural position class (all heads, one head, cut vertex, everything, independent subsets) x exclusion sets x concurrency x completion orders; the event log is checked for double / excluded requests and for the deadline of every request's context (a configured timeout bounds every request, also under a caller deadline), the result against the model's reachability closure, termination by quiescence; through FetchAll and through the manifest loader, default and link-encrypting codec (incl. sealed links with a wrong-length nonce), the entry-hash loader, every spelling of 'no limit' (-1, -2, -100), a legacy-codec chain with a block that never arrives under a fetch timeout; a fifth of the quick cases again under the race detector.",
    note="Fault kinds x position classes are enumerated; subsets and histories are sampled. Termination is bounded progress (quiescent store, timeouts fired), not liveness."),
  "C12": dict(cat="fault_enumeration", ref="§3 C12", tech="hostile-input generation (exhaustive single-edit matrix on generic CBOR/JSON values, truncations at every offset, bit flips, random bytes) decoded under recover + placement runs in journalled child processes",
    text="Single edits are enumerated exhaustively (field paths x 21 replacement kinds on v2, link-encrypted v2, v1, manifest and v0 templates); multi-edits, bit flips and placements are sampled; every accessor / comparator / Verify / Join is called on whatever decodes; stored logs with hostile blocks at head / interior / root / reference-only positions must load the rest through all loaders with the process alive, the loaded log must keep working (size-bounded merges with every bound class, iteration, append), head lists with 40-240 hostile blocks interleaved load completely at high concurrency; a fifth of the quick placement cases again under the race detector.",
@@ -52,7 +52,7 @@ CHECKS = {
    text="Live-append, live-merge, cross-merge, ring, four-party, stalled-reader, ladder (logical step bound), after-refusals, hub and constant-size-source scenarios; every merge result must be before U S_i for a source state S_i recorded inside the call/return window, with heads an exact function of the result, causal closure w.r.t. all entries ever created, and termination.",
    note="Each log has one mutator goroutine so its state chain is known exactly; window bounds come from one atomic logical clock."),
  "C15": dict(cat="exploration", ref="§3 C15", tech="runtime monitor: exact expected-sequence oracle from the reference model for seeded iterator queries, run under recover with post-return channel drain",
-   text="Seeded option combinations (default / 1-3 inclusive / exclusive / unknown upper bounds, inclusive / exclusive lower bounds inside the range, amounts 0..size+2) on forked logs; sequence, closure, error and no-panic clauses; in child processes every kind of bounded iteration is parked at its hook points while a writer starts on the same log, and trimmed logs are iterated at their oldest entry before a writer runs (state-based deadlock classifier).",
+   text="Seeded option combinations (default / 1-3 inclusive / exclusive / unknown upper bounds, inclusive / exclusive lower bounds inside the range, undefined identifiers as bounds, amounts 0..size+2) on forked logs; sequence, closure, error and no-panic clauses; in child processes every kind of bounded iteration is parked at its hook points while a writer starts on the same log, and trimmed logs are iterated at their oldest entry before a writer runs (state-based deadlock classifier).",
    note="With several causally related inclusive bounds plus an amount the oracle tolerates a prefix short by at most #bounds-1 ('at most' in the property)."),
  "C16": dict(cat="exploration", ref="§3 C16", tech="runtime monitor: replay twins (same history, identical hashes) compared for bounded vs unbounded merge, every n in 0..total+3",
    text="For pairs of replicas of seeded histories and every bound the bounded merge is compared with the tail of the twin's unbounded linearisation; heads against the model; sequences of two bounded merges (first bound 0..total-1) followed by an append; pairs under the legacy codec (CIDv0 identifiers), sources trimmed before, sources ending in empty / nil payloads.",
